@@ -188,7 +188,7 @@ func (sp *simProc) simBatch(in, out string, keep, par bool, reps int) (*BatchRes
 		args = append(args, "-reps", strconv.Itoa(reps))
 	}
 	os.Remove(out)
-	limit := 10 * time.Minute
+	limit := 150 * time.Second
 	if par {
 		limit = 90 * time.Second
 	}
